@@ -394,7 +394,20 @@ func c09Storm(ctx *core.Ctx, dotu bool, callers, ncalls int, delays bool) core.R
 
 // conservation: at quiescence every tag is either free or cached with a request slot.
 func conservation(res *core.Result, s *sess, liveTags int, what string) {
-	out, free, cached := s.c.VerifCounts()
+	type cnt struct{ out, free, cached int }
+	ch := make(chan cnt, 1)
+	go func() {
+		o, f, c := s.c.VerifCounts() // takes the client's lock
+		ch <- cnt{o, f, c}
+	}()
+	var out, free, cached int
+	select {
+	case v := <-ch:
+		out, free, cached = v.out, v.free, v.cached
+	case <-time.After(15 * time.Second):
+		res.Violate("C09;client-lock-held-at-quiescence;"+what, "with no call outstanding the client's lock is held and never released (its receive loop is stuck): no further call can be made", nil)
+		return
+	}
 	if out != 0 {
 		res.Violate("C09;conservation;outstanding;"+what, fmt.Sprintf("%d requests still on the client's list at quiescence", out), nil)
 	}
